@@ -225,10 +225,14 @@ def timerDiff (clock : Nat) (tsec tusec : Int) : Int × Int :=
   else if tusec < nusec then (tsec - nsec - 1, tusec - nusec + 1000000)
   else (tsec - nsec, tusec - nusec)
 
-/-- `events_network_select`'s conversion to milliseconds -/
+/-- `events_network_select`'s conversion to milliseconds: `-1` for `tv == NULL`, else `tv2ms(tv)` —
+    rounded up; from `INT_MAX / 1000` = 2147483 seconds on, where `tv_sec * 1000 + …` might not fit in
+    an `int`, as many whole seconds as do fit: `(INT_MAX / 1000) * 1000` ms, never longer than `tv`
+    (the repair of finding F12, `notes/F12-fix.md`; before it this branch returned `INT_MAX`, up to
+    647 ms more than `tv`) -/
 def selectTimeout : Option (Int × Int) → Int
   | none => -1
-  | some (sec, usec) => if sec ≥ 2147483 then 2147483647 else sec * 1000 + (usec + 999) / 1000
+  | some (sec, usec) => if sec ≥ 2147483 then 2147483000 else sec * 1000 + (usec + 999) / 1000
 
 /-- the carry into / out of the microseconds after subtracting two `struct timeval`s field by field
     (`if (tleft.tv_usec < 0) … else if (tleft.tv_usec >= 1000000) …`) -/
